@@ -213,6 +213,55 @@ Proof.
   vm_compute. split; reflexivity.
 Qed.
 
+(* (4'') NO hypothesis on the schedule, on the clients or on the kinds of request: finding F3 is
+   the ONLY way in which overlapping requests differ from a one-at-a-time execution.  For either
+   backend, any reachable store, ANY requests and ANY fine-grained schedule, whenever no transaction
+   is open the run is linearized (same order, same final store as in (4')) with every finished
+   request's response EQUAL to its one-at-a-time response, except that an AddSnapshot request may
+   have been answered 200 (declined: nothing was stored) where the one-at-a-time order answers 404
+   (no such client).  Nothing else can differ: not a status, not a header, not a body, not the
+   store.  (The witness C03_window_witness shows that this deviation does occur; the known-findings
+   file lists exactly this signature, so any other deviation is reported.) *)
+Theorem C03_linearizable_up_to_known_finding : forall k cfg allow U0 a0 d0 reqs sch,
+  cfg_ok cfg -> Inv U0 a0 -> bk_rel k a0 d0 -> fresh_distinct U0 reqs ->
+  let s0 := init_sys (bk_backend k) hresp d0 (handlers cfg allow reqs) in
+  owner (frun (bk_backend k) hresp s0 sch) = None ->
+  linearized_g (win_rel allow) k cfg allow reqs d0 (frun (bk_backend k) hresp s0 sch)
+               (lin_order s0 (csched (bk_backend k) hresp s0 sch) []).
+Proof. exact lin_fine_window. Qed.
+
+Example C03_linearized_g_reading : forall Rr k cfg allow reqs d0 c order,
+  linearized_g Rr k cfg allow reqs d0 c order <->
+  (let sr := seq_run (bk_backend k) hresp d0 (handlers cfg allow reqs) order in
+   NoDup order /\
+   (forall i r, nth_error (th c) i = Some (TDone r) ->
+      In i order /\ exists er r0, nth_error reqs i = Some er /\ resp_in hresp (fst sr) i = Some r0 /\ Rr (snd er) r0 r) /\
+   exists a' a, bk_rel k a' (snd sr) /\ bk_rel k a (db c) /\ a_ok a' = true /\ a_ok a = true /\
+     (forall cl, a_cl a' cl = a_cl a cl \/ (a_cl a' cl = None /\ a_cl a cl = Some (mkCS nil_id None []))) /\
+     ((forall i t, nth_error (th c) i = Some t -> exists r, t = TDone r) -> forall cl, a_cl a' cl = a_cl a cl)).
+Proof. intros. reflexivity. Qed.
+(* r0 = the one-at-a-time response, r = the response under overlap *)
+Example C03_win_rel_reading : forall allow rq r0 r,
+  win_rel allow rq r0 r <->
+  (r0 = r \/
+   ((served rq /\ exists c, rq_cid rq = COk c /\ client_id_header allow (COk c) = inl c) /\
+    (match rq_method rq, rq_path rq, rq_cid rq with MPost, PAddSnapshot _, COk c => Some c | _, _, _ => None end) <> None /\
+    r0 = mkResp 404 None None None None [] true /\ r = mkResp 200 None None None None [] true)).
+Proof. intros. reflexivity. Qed.
+(* with equality as the relation, linearized_g is linearized *)
+Example C03_strict_is_linearized : forall k cfg allow reqs d0 c order,
+  linearized_g strict_rel k cfg allow reqs d0 c order -> linearized k cfg allow reqs d0 c order.
+Proof. exact linearized_strict. Qed.
+(* non-vacuity: on the F3 witness schedule the theorem applies and the deviation is the one allowed *)
+Example C03_up_to_known_finding_nonvacuous :
+  let s0 := init_sys SqliteB hresp sq_empty (handlers w_cfg None w_hreqs) in
+  let sch := [0; 0; 1; 0; 0; 1] in
+  lin_order s0 sch [] = [1; 0] /\
+  map (fun t => option_map rs_status (result_of SqliteB hresp t)) (th (crun SqliteB hresp s0 sch)) = [Some 200; Some 200]%N /\
+  map (fun p => (fst p, rs_status (snd p))) (fst (seq_run SqliteB hresp sq_empty (handlers w_cfg None w_hreqs) [1; 0]))
+  = [(1, 404%N); (0, 200%N)].
+Proof. vm_compute. repeat split; reflexivity. Qed.
+
 (* (5) the tie to the code: the function the scheduled rig's transaction schedules are replayed
    with on the extracted model (ConcRig.rig_run: run-one-transaction tokens, begin-while-held
    probes, final drain) performs a coarse run under SOME schedule — so (1)-(4), which hold for all
